@@ -305,8 +305,30 @@ def rfc_suite_cases(P):
     return out
 
 
+def limb_pattern(rng, F):
+    """a base-field value whose LOW 64-bit limb(s) are zero: non-zero and even/odd only through higher limbs (sgn0 /
+    parity must look at the whole integer, not at the lowest limb)"""
+    if F.p < (1 << 65):
+        return rng.randrange(F.p)
+    sh = 64 * rng.randrange(1, max(2, (F.p.bit_length() - 1) // 64 + 1))
+    top = F.p >> sh
+    if top < 2:
+        sh = 64; top = F.p >> 64
+    return (rng.randrange(1, top) << sh) % F.p
+
+
 def field_elem(rng, F, k=None):
-    k = rng.randrange(8) if k is None else k
+    k = rng.randrange(10) if k is None else k
+    if k >= 8:
+        # first non-zero coordinate = a multiple of 2^64, followed (in an extension) by an odd / random coordinate
+        if F.deg == 1:
+            return F.fromint(limb_pattern(rng, F)), 'u=low_limb_zero'
+        c = [0] * F.deg
+        i = rng.randrange(F.deg)
+        c[i] = limb_pattern(rng, F)
+        for j in range(i + 1, F.deg):
+            c[j] = rng.choice([1, rng.randrange(F.p) | 1, rng.randrange(F.p)])
+        return tuple(c), 'u=low_limb_zero'
     if k == 0:
         return F.zero, 'u=0'
     if k == 1:
@@ -396,7 +418,7 @@ def gen(rng, tier):
             yield h2f_case(fc, n, sec, bytes_of(rng, rng.choice([0, 3, 65])), bytes_of(rng, rng.choice([0, 16, 256])), 'h2f/limit/' + cls)
 
     # ---- parity
-    for _ in range(60 * scale):
+    for _ in range(120 * scale):
         fc = rng.choice([1, 2, 2, 4, 6, 6, 9, 12, 13])
         F = ref.Fld(field_args(P, fc))
         x, c = field_elem(rng, F)
